@@ -238,28 +238,58 @@ def run(ctx, res):
                     "subtraction; the forest iterators all go through get_tree and advance only on Some", floor=4)
     ft = F.one(r"^rustemo::glr::gss::Tree::<[^>]*>::find_tree_root$")
     ftp = Sim(ft, F).run()
-    emp = [p for p in ftp if any(is_call(t, "::is_empty") and v == 1 for t, v in p.cond)]
-    if emp and all(p.end == "return" and [e for e in p.events if e[0] == "return"][0][1][1].endswith("None") and not calls(p, "::solutions") for p in emp):
-        res.ok(rid5, "find-root/empty", ft.loc())
-    else:
-        res.violation(rid5, "find-root/empty", "find_tree_root does not return None first for an empty list of roots", ft.loc())
-    over = [p for p in ftp if any(t[0] == "bin" and t[1] == "Ge" and has_call(t[3], "::len") and v == 1 for t, v in p.cond)]
-    if over and all([e for e in p.events if e[0] == "return"] and [e for e in p.events if e[0] == "return"][0][1][1].endswith("None") for p in over):
-        res.ok(rid5, "find-root/past-the-end", ft.loc(), "root_idx >= roots.len() => None")
-    else:
-        res.violation(rid5, "find-root/past-the-end", "find_tree_root does not return None when the index runs past the last root", ft.loc())
-    # subtraction guarded by solutions <= tree_idx
-    subok = False
+    # Semantic form (any loop shape): a root is returned only when the running index is below its number of solutions, the
+    # index is reduced only by a count it is not below, and None is never returned right after finding the root.
+    def mentions_idx(x):
+        return mir.contains(x, lambda y: y in (("param", "tree_idx"), ("var", "tree_idx")))
+    def decisive(tm, v):
+        """'lt' (index < count) / 'ge' (index >= count) / None for a comparison atom between the index and something else"""
+        if not (isinstance(tm, tuple) and tm[0] == "bin" and tm[1] in ("Lt", "Le", "Gt", "Ge") and v in (0, 1)):
+            return None
+        a_idx, b_idx = mentions_idx(tm[2]), mentions_idx(tm[3])
+        if a_idx == b_idx:
+            return None
+        op = tm[1]
+        if b_idx:
+            op = {"Lt": "Gt", "Gt": "Lt", "Le": "Ge", "Ge": "Le"}[op]      # rewrite as `index op count`
+        return {("Lt", 1): "lt", ("Lt", 0): "ge", ("Ge", 1): "ge", ("Ge", 0): "lt", ("Gt", 1): "ge"}.get((op, v))
+    n_some = n_none = 0
+    bad = {}
     for p in ftp:
-        for i, e in enumerate(p.events):
-            if e[0] == "assert" and e[1] and "Sub" in e[1]:
-                prior = [c for c in p.events[:i] if c[0] == "cond" and c[1][0] == "bin" and c[1][1] == "Le"]
-                if prior and prior[-1][2] == 1:
-                    subok = True
+        last = None
+        for e in p.events:
+            if e[0] == "cond":
+                d = decisive(e[1], e[2])
+                if d:
+                    last = d
+            elif e[0] == "set" and isinstance(e[2], tuple) and e[2][0] == "bin" and e[2][1].startswith("Sub") and mentions_idx(e[2][2]) \
+                    and e[1] == "tree_idx":
+                if last != "ge":
+                    bad["find-root/subtraction"] = "the tree index is reduced by a count that it was not shown to reach (index >= count)"
                 else:
-                    res.violation(rid5, "find-root/subtraction", "tree_idx -= solutions is not guarded by solutions <= tree_idx", ft.loc())
-    if subok:
-        res.ok(rid5, "find-root/subtraction", ft.loc())
+                    bad.setdefault("find-root/subtraction", None)
+            elif e[0] == "return" and isinstance(e[1], tuple) and e[1][0] == "agg":
+                if e[1][1].endswith("Some"):
+                    n_some += 1
+                    if last != "lt":
+                        bad["find-root/found"] = "a root is returned although the index was not shown to be below its number of solutions"
+                    else:
+                        bad.setdefault("find-root/found", None)
+                elif e[1][1].endswith("None"):
+                    n_none += 1
+                    if last == "lt":
+                        bad["find-root/not-covered"] = "None is returned right after the covering root was found"
+                    else:
+                        bad.setdefault("find-root/not-covered", None)
+    if not n_some or not n_none:
+        res.anchor_lost(rid5, "find_tree_root: %d Some and %d None return path(s) recognised" % (n_some, n_none), ft.loc())
+    for key in ("find-root/found", "find-root/not-covered", "find-root/subtraction"):
+        if key not in bad:
+            continue
+        if bad[key]:
+            res.violation(rid5, key, "find_tree_root: " + bad[key], ft.loc())
+        else:
+            res.ok(rid5, key, ft.loc())
     its = F.find(r"^<rustemo::glr::gss::Forest(IntoIter|Iterator)<.*> as core::iter::traits::iterator::Iterator>::next$")
     for it in its:
         okit = False
